@@ -83,9 +83,10 @@ def rule_clip(ctx):
     n += 1
     # DB side
     g = ctx.func('db', 'DB.read_headers')
-    inner = g.nested.get('read_headers')
-    if inner is None:
+    inners = [x for x in g.nested.values() if any(isinstance(c, ast.Call) and q.callee_name(ctx, x, c) == 'self.headers_file.read' for c in x.own_nodes())]
+    if len(inners) != 1:
         raise AnalysisError(f'{g.key}: nested reader not found')
+    inner = inners[0]
     d = df.defs(inner)
     dc = [s for s in inner.own_nodes() if isinstance(s, ast.Assign) and isinstance(s.value, ast.Call) and norm(s.value.func) == 'max']
     ok1 = len(dc) == 1 and norm(dc[0].value) == f'max(0, min({g.params[2]}, self.state.height + 1 - {g.params[1]}))'
